@@ -25,6 +25,10 @@ structure Ins where
 inductive Line where
   | ins (i : Ins)                -- `  op a, b`
   | multi (is : List Ins)        -- `  i1; i2; i3`      (cast_table strings)
+  | multiT (text : String) (is : List Ins)
+      -- a cast_table string whose spelling is not the canonical `op a, b; op c` (no space after a
+      -- comma or semicolon, local labels `1:`): printed as `  text`; `is` is the same string parsed
+      -- by tools/extract/casttable.py (a local label is an `Ins` whose op ends in `:`)
   | label (name : String)        -- `name:`
   | raw (text : String)          -- a line printed verbatim (directives, asm statements)
   deriving Repr, DecidableEq, Inhabited
@@ -44,6 +48,7 @@ def Ins.render (i : Ins) : String :=
 def Line.render : Line → String
   | .ins i => "  " ++ i.render
   | .multi is => "  " ++ "; ".intercalate (is.map Ins.render)
+  | .multiT t _ => "  " ++ t
   | .label n => n ++ ":"
   | .raw t => t
 
@@ -51,6 +56,7 @@ def Line.render : Line → String
 def Line.instrs : Line → List Ins
   | .ins i => [i]
   | .multi is => is
+  | .multiT _ is => is
   | _ => []
 
 def render (ls : List Line) : String :=
